@@ -1104,3 +1104,74 @@ package gtab
 //@     invariant forall k int :: 0 <= k && k < numRecords ==> records[k] != nil
 //@     invariant forall k int :: 0 <= k && k < i ==> ref(adjust[k]) == ref(records) && off(adjust[k]) == off(records) + k * class2Count && len(adjust[k]) == class2Count
 //@     decreases class1Count - i
+
+// readGpos3_1 (cursive attachment): total reader; every coverage index has an
+// entry/exit record (precondition of Gpos3_1.apply).
+//@ func readGpos3_1(p *parser.Parser, subtablePos int64) (s Subtable, err error)   props: C02 C18 C07
+//@   requires parser.inv(p) && subtablePos >= 0 && subtablePos <= 4611686018427387904
+//@   ensures err == nil ==> parser.inv(p) && s != nil && is(s, *Gpos3_1) && s.(*Gpos3_1) != nil
+//@   ensures err == nil ==> forall g uint16 :: has(s.(*Gpos3_1).Cov, g) ==> 0 <= s.(*Gpos3_1).Cov[g] && s.(*Gpos3_1).Cov[g] < len(s.(*Gpos3_1).Records)
+//@   ensures p.r == old(p.r) && (faults(p.r) > old(faults(p.r)) ==> err != nil)
+//@   modifies p.*, allelems(byte), rpos(p.r), faults(p.r)
+//@   loop 0
+//@     invariant parser.inv(p) && p.r == old(p.r) && faults(p.r) <= old(faults(p.r)) && fresh(offsets) && len(offsets) == 2*entryExitCount && 0 <= entryExitCount && entryExitCount <= 65535
+//@   loop 1
+//@     invariant parser.inv(p) && p.r == old(p.r) && faults(p.r) <= old(faults(p.r)) && fresh(offsets) && len(offsets) == 2*entryExitCount && fresh(records) && len(records) == entryExitCount && 0 <= entryExitCount && entryExitCount <= 65535
+
+// readGpos4_1 (mark-to-base): total reader; mark and base coverage indices
+// address existing records (preconditions of Gpos4_1.apply).  The classes of
+// the mark records are NOT validated against markClassCount (see F25: apply
+// checks them).
+//@ func readGpos4_1(p *parser.Parser, subtablePos int64) (s Subtable, err error)   props: C02 C18 C07
+//@   requires parser.inv(p) && subtablePos >= 0 && subtablePos <= 4611686018427387904
+//@   ensures err == nil ==> parser.inv(p) && s != nil && is(s, *Gpos4_1) && s.(*Gpos4_1) != nil
+//@   ensures err == nil ==> forall g uint16 :: has(s.(*Gpos4_1).MarkCov, g) ==> 0 <= s.(*Gpos4_1).MarkCov[g] && s.(*Gpos4_1).MarkCov[g] < len(s.(*Gpos4_1).MarkArray)
+//@   ensures err == nil ==> forall g uint16 :: has(s.(*Gpos4_1).BaseCov, g) ==> 0 <= s.(*Gpos4_1).BaseCov[g] && s.(*Gpos4_1).BaseCov[g] < len(s.(*Gpos4_1).BaseArray)
+//@   ensures p.r == old(p.r) && (faults(p.r) > old(faults(p.r)) ==> err != nil)
+//@   modifies p.*, allelems(byte), rpos(p.r), faults(p.r)
+//@   let K = parser.inv(p) && p.r == old(p.r) && faults(p.r) <= old(faults(p.r)) && markCov != nil && baseCov != nil && fresh(markCov) && fresh(baseCov) && 0 <= markClassCount && markClassCount <= 65535 && baseArrayPos >= 0 && baseArrayPos <= 4611686018427453439
+//@   let MC = forall g uint16 :: has(markCov, g) ==> 0 <= markCov[g] && markCov[g] < len(markArray)
+//@   let BC = forall g uint16 :: has(baseCov, g) ==> 0 <= baseCov[g] && baseCov[g] < baseCount
+//@   loop 0
+//@     invariant K && MC && BC && fresh(offsets) && len(offsets) == numOffsets && numOffsets == baseCount * markClassCount && numOffsets <= 32764
+//@   loop 1
+//@     invariant K && MC && BC && fresh(baseArray) && len(baseArray) == baseCount && (isnil(offsets) || fresh(offsets)) && len(offsets) == (baseCount - iter) * markClassCount && ref(offsets) != ref(baseArray)
+//@   loop 2
+//@     invariant K && MC && BC && fresh(baseArray) && len(baseArray) == baseCount && (isnil(offsets) || fresh(offsets)) && len(offsets) == (baseCount - i) * markClassCount && fresh(row) && len(row) == markClassCount && ref(row) != ref(baseArray) && ref(offsets) != ref(baseArray) && 0 <= i && i < baseCount
+
+// readGpos6_1 (mark-to-mark): as readGpos4_1.
+//@ func readGpos6_1(p *parser.Parser, subtablePos int64) (s Subtable, err error)   props: C02 C18 C07
+//@   requires parser.inv(p) && subtablePos >= 0 && subtablePos <= 4611686018427387904
+//@   ensures err == nil ==> parser.inv(p) && s != nil && is(s, *Gpos6_1) && s.(*Gpos6_1) != nil
+//@   ensures err == nil ==> forall g uint16 :: has(s.(*Gpos6_1).Mark1Cov, g) ==> 0 <= s.(*Gpos6_1).Mark1Cov[g] && s.(*Gpos6_1).Mark1Cov[g] < len(s.(*Gpos6_1).Mark1Array)
+//@   ensures err == nil ==> forall g uint16 :: has(s.(*Gpos6_1).Mark2Cov, g) ==> 0 <= s.(*Gpos6_1).Mark2Cov[g] && s.(*Gpos6_1).Mark2Cov[g] < len(s.(*Gpos6_1).Mark2Array)
+//@   ensures p.r == old(p.r) && (faults(p.r) > old(faults(p.r)) ==> err != nil)
+//@   modifies p.*, allelems(byte), rpos(p.r), faults(p.r)
+//@   let K = parser.inv(p) && p.r == old(p.r) && faults(p.r) <= old(faults(p.r)) && mark1Cov != nil && mark2Cov != nil && fresh(mark1Cov) && fresh(mark2Cov) && 0 <= markClassCount && markClassCount <= 65535 && mark2ArrayPos >= 0 && mark2ArrayPos <= 4611686018427453439
+//@   let MC = forall g uint16 :: has(mark1Cov, g) ==> 0 <= mark1Cov[g] && mark1Cov[g] < len(mark1Array)
+//@   let BC = forall g uint16 :: has(mark2Cov, g) ==> 0 <= mark2Cov[g] && mark2Cov[g] < mark2Count
+//@   loop 0
+//@     invariant K && MC && BC && fresh(offsets) && len(offsets) == numOffsets && numOffsets == mark2Count * markClassCount && numOffsets <= 32764
+//@   loop 1
+//@     invariant K && MC && BC && fresh(mark2Array) && len(mark2Array) == mark2Count && (isnil(offsets) || fresh(offsets)) && len(offsets) == (mark2Count - iter) * markClassCount && ref(offsets) != ref(mark2Array)
+//@   loop 2
+//@     invariant K && MC && BC && fresh(mark2Array) && len(mark2Array) == mark2Count && (isnil(offsets) || fresh(offsets)) && len(offsets) == (mark2Count - i) * markClassCount && fresh(row) && len(row) == markClassCount && ref(row) != ref(mark2Array) && ref(offsets) != ref(mark2Array) && 0 <= i && i < mark2Count
+
+// readGpos5_1 (mark-to-ligature): total reader (defect F26 found here: the
+// original indexed the ligature offset list with the mark class).
+//@ func readGpos5_1(p *parser.Parser, subtablePos int64) (s Subtable, err error)   props: C02 C18 C07
+//@   requires parser.inv(p) && subtablePos >= 0 && subtablePos <= 4611686018427387904
+//@   ensures err == nil ==> parser.inv(p) && s != nil && is(s, *Gpos5_1) && s.(*Gpos5_1) != nil
+//@   ensures p.r == old(p.r) && (faults(p.r) > old(faults(p.r)) ==> err != nil)
+//@   modifies p.*, allelems(byte), rpos(p.r), faults(p.r)
+//@   let K = parser.inv(p) && p.r == old(p.r) && faults(p.r) <= old(faults(p.r)) && 0 <= markClassCount && markClassCount <= 65535 && ligArrayPos >= 0 && ligArrayPos <= 4611686018427453439
+//@   loop 0
+//@     invariant K && fresh(offsets) && len(offsets) == ligCount
+//@   loop 1
+//@     invariant K && fresh(offsets) && len(offsets) == ligCount && fresh(ligArray) && len(ligArray) == ligCount
+//@   loop 2
+//@     invariant K && fresh(offsets) && len(offsets) == ligCount && fresh(ligArray) && len(ligArray) == ligCount && fresh(anchorOffsets) && len(anchorOffsets) == numOffsets && numOffsets == componentCount * markClassCount && numOffsets <= 32764 && 0 <= i && i < ligCount && ligAttachPos >= 0 && ligAttachPos <= 4611686018427518974
+//@   loop 3
+//@     invariant K && fresh(offsets) && len(offsets) == ligCount && fresh(ligArray) && len(ligArray) == ligCount && fresh(anchorOffsets) && len(anchorOffsets) == componentCount * markClassCount && fresh(ligAttach) && len(ligAttach) == componentCount && 0 <= i && i < ligCount && ligAttachPos >= 0 && ligAttachPos <= 4611686018427518974
+//@   loop 4
+//@     invariant K && fresh(offsets) && len(offsets) == ligCount && fresh(ligArray) && len(ligArray) == ligCount && fresh(anchorOffsets) && len(anchorOffsets) == componentCount * markClassCount && fresh(ligAttach) && len(ligAttach) == componentCount && fresh(row) && len(row) == markClassCount && 0 <= i && i < ligCount && 0 <= j && j < componentCount && ligAttachPos >= 0 && ligAttachPos <= 4611686018427518974
